@@ -282,4 +282,77 @@ theorem no_growth_with_room_bins (hash : Nat → Nat) (c : Nat) (hc0 : 0 < c)
   have := Nat.two_pow_pos k
   omega
 
+/-! ### `reserve`: room as requested -/
+
+/-- in a well-formed state the stored count is what `len` reports -/
+theorem WF.len_cast_eq_count {m : Map} (hw : WF m) : ((len m : Nat) : Int) = m.count := by
+  have := hw.count_nonneg
+  simp only [len]
+  split <;> omega
+
+/-- **O8 `reserve_threshold_room`**: after `reserve(a)` (`len + a < 2^29`) the table exists and the
+growth threshold is strictly above `count + a`. (`try_presize` stops with the rounded request
+within the threshold — `C14.reserve_room` — or with the table at its maximum length `2^30`, whose
+threshold `3 * 2^28` is above `2^29`: no hypothesis on the table length is needed.) -/
+theorem reserve_threshold_room (a : Nat) {m : Map} (hg : Good m)
+    (hs : len m + a < MAXIMUM_CAPACITY / 2) :
+    (reserve a m).table ≠ none ∧
+    (reserve a m).count + (a : Int) < (reserve a m).sizeCtl := by
+  obtain ⟨w, _, hc, t', ht', hd⟩ := tryPresize_spec (reserveArg (len m) a) hg.1 hg.2
+  have hlen := hg.1.len_cast_eq_count
+  show (tryPresize (reserveArg (len m) a) m).table ≠ none ∧
+    (tryPresize (reserveArg (len m) a) m).count + (a : Int) <
+      (tryPresize (reserveArg (len m) a) m).sizeCtl
+  refine ⟨(by rw [ht']; exact fun h => nomatch h), ?_⟩
+  rw [hc]
+  rcases (C14.reserve_done_iff _ _ _).1 hd with h | h
+  · have : ((len m + a : Nat) : Int) < (tryPresize (reserveArg (len m) a) m).sizeCtl :=
+      C14.reserve_room (len m + a) hs _ h
+    omega
+  · have hp := w.preWF ht'
+    have hle := hp.twf.2.1
+    have hsc := hp.sc
+    have hmax : t'.length = MAXIMUM_CAPACITY := by omega
+    rw [hmax] at hsc
+    rw [hsc]
+    simp only [max_cap_eq] at hs
+    simp only [loadFactor, max_cap_eq, Int.ofNat_eq_natCast]
+    omega
+
+/-- **O8 `no_growth_after_reserve`**: at most `a` inserts after `reserve(a)` (`len + a < 2^29`),
+none of which meets a crowded bin, never resize: the table keeps the length `reserve` left it
+with. -/
+theorem no_growth_after_reserve {m : Map} (hg : Good m) (a : Nat)
+    (hs : len m + a < MAXIMUM_CAPACITY / 2)
+    (items : List (Nat × Nat × Nat × Nat)) (hlen : items.length ≤ a)
+    (hbins : ∀ pre it post, items = pre ++ it :: post →
+      treeifyCond (putBinCount it.1 (putAll pre (reserve a m))) = false) :
+    tableLen (putAll items (reserve a m)) = tableLen (reserve a m) ∧
+    (putAll items (reserve a m)).resizes = (reserve a m).resizes := by
+  obtain ⟨hne, hroom⟩ := reserve_threshold_room a hg hs
+  have hroom' : (reserve a m).count + items.length < (reserve a m).sizeCtl := by omega
+  obtain ⟨h1, h2, _⟩ := putAll_no_growth items (reserve_good a hg) hne hroom' hbins
+  exact ⟨h1, h2⟩
+
+/-- … stated with bins: no bin holds 8 (`TREEIFY_THRESHOLD`) nodes along the way -/
+theorem no_growth_after_reserve_bins {m : Map} (hg : Good m) (a : Nat)
+    (hs : len m + a < MAXIMUM_CAPACITY / 2)
+    (items : List (Nat × Nat × Nat × Nat)) (hlen : items.length ≤ a)
+    (hbins : ∀ pre it post, items = pre ++ it :: post →
+      BinsBelow TREEIFY_THRESHOLD (putAll pre (reserve a m))) :
+    tableLen (putAll items (reserve a m)) = tableLen (reserve a m) ∧
+    (putAll items (reserve a m)).resizes = (reserve a m).resizes := by
+  refine no_growth_after_reserve hg a hs items hlen ?_
+  intro pre it post he
+  have hgr := reserve_good a hg
+  refine treeifyCond_false_of_binsBelow (putAll_good pre hgr) ?_ (hbins pre it post he)
+  intro hn
+  have h1 := (putAll_spec pre hgr).2.2.2.1
+  rw [tableLen_of_none hn] at h1
+  cases ht : (reserve a m).table with
+  | none => exact (reserve_threshold_room a hg hs).1 ht
+  | some t =>
+    have := hgr.1.tableLen_pos ht
+    omega
+
 end Flurry.Seq
